@@ -650,6 +650,31 @@ def r15_pairing(idx, r):
     pairing_rule(idx, r, ["armi.physics.neutronics.crossSectionGroupManager", "armi.physics.neutronics.crossSectionSettings"], 60)
 
 
+def r17_new_types_distinct_and_complete_unions(idx, r):
+    """(a) when representative blocks are built from existing blocks, each original XS type gets a NEW type that no other original has been
+    given: the types excluded from the choice are the ones already handed out - the VALUES of the orig -> new table - not the originals.
+    (b) `_getAllNucs` of the by-component collections returns the union over ALL components it is given: the return stands after the loop."""
+    f = idx.method(M + ".CrossSectionGroupManager", "_getModifiedReprBlocks")
+    calls = [c for c in iter_calls(f.node) if call_attr(c) == "getNextAvailableXsTypes"]
+    if len(calls) != 1:
+        raise AnchorMissing("_getModifiedReprBlocks: getNextAvailableXsTypes")
+    ex = next((k.value for k in calls[0].keywords if k.arg == "excludedXSTypes"), calls[0].args[-1] if calls[0].args else None)
+    table = next((norm(s_.node.value) for s_ in iter_stores(f.node) if s_.kind == "subscript" and s_.value is not None and "next" in norm(s_.value).lower()), None)
+    r.require(ex is not None and table is not None and norm(ex) == f"{table}.values()", "_getModifiedReprBlocks:types-already-handed-out-are-excluded", f, node=calls[0],
+              msg=f"the next free XS type is chosen excluding `{norm(ex) if ex is not None else None}` instead of the types already handed out (`{table}.values()`): two original types receive the same new type and their blocks fall into one group")
+    n = 0
+    for c in idx.subclasses(idx.cls(M + ".BlockCollection")):
+        g = c.methods.get("_getAllNucs")
+        if g is None:
+            continue
+        n += 1
+        early = [x for lp in walk_local(g.node) if isinstance(lp, ast.For) for x in walk_local(lp) if isinstance(x, ast.Return)]
+        r.require(not early, f"{c.name}._getAllNucs:union-over-every-component", g, node=early[0] if early else None,
+                  msg="the nuclide union is returned from inside the loop: only the first component contributes, and nuclides that a later member holds are never averaged")
+    if n < 1:
+        raise AnchorMissing("_getAllNucs")
+
+
 def run(idx, chk):
     chk.explanation = (
         "C20: every weighted mean in the block-collection classes is typed with a role generator W for the weights: the result must be of degree "
@@ -690,3 +715,5 @@ def run(idx, chk):
                  necessary="type label and environment group are not exchanged")
     chk.run_rule("R20.16", "consistency guards compare a member with the representative; temperatures are read in the order they were accumulated", lambda r: r18_both_sides_and_one_order(idx, r), floor=2,
                  necessary="each averaged quantity is the weight-normalised mean of the matching member values")
+    chk.run_rule("R20.17", "new XS types are chosen among those not yet handed out; _getAllNucs unions every component", lambda r: r17_new_types_distinct_and_complete_unions(idx, r), floor=2,
+                 necessary="every block belongs to exactly one group; each nuclide density of the representative is the mean over the members")
